@@ -459,16 +459,23 @@ static Result check_bezier(const J &c)
       if (dr > bd + 1e-6 * L + 1e-5 * bd)
         {
           // classify: is the reported point at least a local minimiser of the distance along the curve?
+          // (walk away from it in steps of 1e-3 of a segment, up to 1e-2: a lower point counts against it only if no higher
+          // point - a barrier, however low - lies on the way; basins can be as shallow as 1e-8 of the curve length)
           bool local_min = true;
-          for (double h : {1e-3, 1e-2})
-            for (double sg : {-1.0, 1.0})
-              {
-                double tt = res.parametric_fraction + sg * h;
-                size_t ii = res.index;
-                if (tt < 0) { if (ii == 0) continue; ii--; tt += 1; }
-                if (tt > 1) { if (ii + 2 >= pts.size()) continue; ii++; tt -= 1; }
-                if (dist(curve(ii, tt), cp) < dr - 1e-9 * L) local_min = false;
-              }
+          for (double sg : {-1.0, 1.0})
+            {
+              bool barrier = false;
+              for (int k = 1; k <= 10 && !barrier; ++k)
+                {
+                  double tt = res.parametric_fraction + sg * k * 1e-3;
+                  size_t ii = res.index;
+                  if (tt < 0) { if (ii == 0) break; ii--; tt += 1; }
+                  if (tt > 1) { if (ii + 2 >= pts.size()) break; ii++; tt -= 1; }
+                  const double dk = dist(curve(ii, tt), cp);
+                  if (dk > dr + 1e-9 * L) barrier = true;
+                  else if (dk < dr - 1e-9 * L) { local_min = false; break; }
+                }
+            }
           if (local_min)
             return Result::fail(spherical ? "bezier-spherical-local-minimum-not-global" : "bezier-cartesian-local-minimum-not-global",
                                 "the reported closest point is only a local minimiser of the distance along the curve: it is at " + fmt(dr) + " while a sampled curve point is at " + fmt(bd) + " (curve length " + fmt(L) + "), query " + q.dump());
@@ -574,8 +581,9 @@ static Result check_gc(const J &c)
   r.classes.push_back(ang > PI / 2 ? ">90deg" : "<=90deg");
   if (ang > PI - 1e-6) r.classes.push_back("(nearly) opposite points");
   if (!std::isfinite(got)) return Result::fail("great-circle-not-finite", "distance " + fmt(got) + " for points " + fmt(ang) + " rad apart (radius " + fmt(R) + ")");
-  // acos-based formula: absolute angular error up to ~1e-8 near 0 and pi
-  if (std::fabs(got - R * ang) > R * 3e-8)
+  // acos-based formula: the cosine carries a few roundings (~5e-16), which the arc cosine turns into an absolute angular error of
+  // sqrt(2 * 5e-16) = 3e-8 for identical and for opposite points (measured 3.3e-8 for an antipodal pair), far less in between
+  if (std::fabs(got - R * ang) > R * 1e-7)
     return Result::fail(ang > PI / 2 ? "great-circle-beyond-90" : "great-circle", "distance " + fmt(got) + " but great-circle distance is " + fmt(R * ang) + " (angle " + fmt(ang) + " rad)");
   return r;
 }
